@@ -286,3 +286,28 @@ func OffsetIn(sub, whole []byte) int {
 	}
 	return int(ps - pw)
 }
+
+// OffsetOf is OffsetIn for slices of any element type, counted in elements.
+func OffsetOf[T any](sub, whole []T) int {
+	if cap(sub) == 0 || cap(whole) == 0 {
+		return -1
+	}
+	var z T
+	sz := unsafe.Sizeof(z)
+	ps, pw := uintptr(unsafe.Pointer(unsafe.SliceData(sub))), uintptr(unsafe.Pointer(unsafe.SliceData(whole)))
+	if sz == 0 || ps < pw || ps > pw+uintptr(cap(whole))*sz || (ps-pw)%sz != 0 {
+		return -1
+	}
+	return int((ps - pw) / sz)
+}
+
+// DisjointOf is Disjoint for slices of any element type: the backing ranges [0, cap) do not overlap.
+func DisjointOf[T any](a, b []T) bool {
+	if cap(a) == 0 || cap(b) == 0 {
+		return true
+	}
+	var z T
+	sz := unsafe.Sizeof(z)
+	pa, pb := uintptr(unsafe.Pointer(unsafe.SliceData(a))), uintptr(unsafe.Pointer(unsafe.SliceData(b)))
+	return pa+uintptr(cap(a))*sz <= pb || pb+uintptr(cap(b))*sz <= pa
+}
